@@ -379,3 +379,7 @@ def run(ctx):
     name_binding(ctx, 'R18.8', ['nbdime.vcs.git.', 'nbdime.__main__'] if ctx.tier == 'quick' else ['nbdime.'])
     xdg_fallback_by_truthiness(ctx, 'R18.9')
     no_shared_command_state(ctx, 'R18.10')
+
+
+from .extra import with_extra  # noqa: E402
+run = with_extra('C18', run)
